@@ -370,7 +370,8 @@ class Oracle:
         from scipy.ndimage import map_coordinates
         H, W = s0.shape
         m = int(np.ceil(max(abs(px), abs(py)))) + 2
-        if H - 2 * m < 2 or W - 2 * m < 2 or max(abs(px), abs(py)) < 0.25:
+        # needs a displacement of at least half a pixel and a dozen interior samples to be decisive
+        if H - 2 * m < 2 or W - 2 * m < 2 or (H - 2 * m) * (W - 2 * m) < 12 or max(abs(px), abs(py)) < 0.5:
             return
         iy, ix = np.mgrid[m:H - m, m:W - m]
         plus = map_coordinates(s0, [iy - py, ix - px], order=1)
@@ -378,7 +379,7 @@ class Oracle:
         inner = s1[m:H - m, m:W - m]
         ep, em = float(np.sqrt(np.mean((inner - plus) ** 2))), float(np.sqrt(np.mean((inner - minus) ** 2)))
         self.cnt('translation sub-pixel direction checked')
-        if not ep < em:
+        if em < 0.8 * ep:
             self.fail('translate-subpixel-direction',
                       'interpolated screen at t=%r is closer to the t=%r screen moved by -velocity*dt than by +velocity*dt (%.3g vs %.3g)' % (
                           clock, t0, em, ep))
@@ -445,8 +446,24 @@ def compare_layer(ctx, case, obs, out, idx):
     values = {}      # symbolic sample -> float
     owner = {}       # float -> symbolic sample
     hist = 0
+    sub = [Fraction(0), Fraction(0)]
     for o, i in zip(obs, idx):
         if i is None:
+            if case['kind'] == 'infinite' and o['op'][0] == 'read' and o['status'] == 'ok' and 'raw' in o:
+                # the read-out is the raw screen displaced by the model's sub-pixel offset, in pixels of each axis
+                # (scipy's spline shift is taken as specified); without interpolation it is the raw screen itself
+                raw = o['raw'].reshape(case['ny'], case['nx'])
+                if case['interp'] and (sub[0] != 0 or sub[1] != 0):
+                    from scipy.ndimage import affine_transform
+                    off = [-float(sub[1]) / case['dy'], -float(sub[0]) / case['dx']]
+                    want = affine_transform(raw, np.array([1, 1]), off, mode='nearest', order=5)
+                    ok = np.abs(want - o['phase1']).max() <= TOL * max(float(np.abs(raw).max()), 1e-300)
+                else:
+                    ok = np.array_equal(raw, o['phase1']) or (case['interp'] and np.abs(raw - o['phase1']).max() <= TOL * float(np.abs(raw).max()))
+                ctx.traces_validated += 1
+                if not ok:
+                    ctx.disagree(stream, {'case': case, 'op': o['op'], 'model': 'sub-pixel offset %s, %s (length units)' % (sub[0], sub[1]),
+                                          'impl': 'read-out is not the raw screen displaced by that offset'}); return
             continue
         ctx.traces_validated += 1
         resp = out[i]
@@ -464,10 +481,17 @@ def compare_layer(ctx, case, obs, out, idx):
                          key=('fin-clock' if case['kind'] == 'finite' else None)); return
         if [Fraction(x) for x in o['vel']] != parse_rat_list(kv['v']) or [Fraction(o['cn2']), Fraction(o['L0'])] != parse_rat_list(kv['par']):
             ctx.disagree(stream, dict(detail, impl='v=%r Cn^2=%r L0=%r' % (o['vel'], o['cn2'], o['L0']))); return
+        if 'sub' in kv:
+            sub = parse_rat_list(kv['sub'])
         rng_m.append((kv['rng'], kv['orig'])); rng_r.append((o['rng'], o['orig']))
         if case['kind'] == 'infinite':
             if o['op'][0] == 'reset':
                 hist = 0
+                # "different symbols => different floats" is only demanded within one run between resets: the
+                # autoregression forgets its initial state, so two runs that end with the same long sequence of extrusions
+                # driven by the same normals converge and single elements come out bit-identical (observed after 69 equal
+                # extrusions) - a property of the process, not a disagreement
+                owner = {}
             for w in o['ext']:
                 hist = hist * 5 + WHERE_CODE[w]
             if int(kv['hist']) != hist:
@@ -574,7 +598,10 @@ def gen_geometry(rng, big):
     nx = int(rng.integers(5, hi))
     ny = nx if rng.random() < 0.35 else int(rng.integers(5, hi))
     dx = float(2.0 ** int(rng.integers(-4, 1)))
-    dy = dx if rng.random() < 0.7 else float(2.0 ** int(rng.integers(-4, 1)))
+    dy = dx
+    if rng.random() < 0.45:
+        while dy == dx:
+            dy = float(2.0 ** int(rng.integers(-4, 1)))
     return nx, ny, dx, dy
 
 
@@ -698,11 +725,55 @@ def gen_late_case(rng, kind, style, big):
     return case
 
 
+def gen_cross_case(rng, kind, big):
+    """periodicity: the accumulated displacement crosses multiples of the grid extent (1, 2, 3, 5, 7 extents; the
+    finite layer's two periods are 1 and `oversampling` = 2 extents); consecutive reads less than one extent apart
+    straddle each crossing; some reads sit exactly on a multiple and some at sub-pixel offsets."""
+    nx, ny, dx, dy = gen_geometry(rng, big)
+    if kind == 'infinite':
+        nx, ny = min(nx, 12), min(ny, 12)
+    axis = int(rng.integers(0, 2))                       # the axis along which the extents are counted
+    n = (nx, ny)[axis]
+    p = int(rng.choice([1, 1, 2])) * int(rng.choice([-1, 1]))
+    other = int(rng.choice([0, 0, 1, -1, 2]))
+    v = [0, 0]
+    v[axis], v[1 - axis] = p, other
+    case = {'kind': kind, 'nx': nx, 'ny': ny, 'dx': dx, 'dy': dy, 'vel': [v[0] * dx, v[1] * dy],
+            'seed': int(rng.integers(0, 2 ** 31)), 'cn2': float(rng.integers(1, 64)) * 2.0 ** -44,
+            'L0': float(rng.choice([4.0, 10.0])) * max(nx * dx, ny * dy) / 4.0, 'k': float(rng.choice([0, 0, 2.0])),
+            'interp': bool(rng.random() < 0.5), 'style': 'crossing'}
+    ops = [['read', 1.0]] if rng.random() < 0.6 else []
+    ms = sorted(set(int(m) for m in rng.choice([1, 2, 3, 5, 7], size=int(rng.integers(2, 5)))))
+    if kind == 'infinite' and not big:
+        ms = [m for m in ms if m <= 5] or [1, 2]
+    r = 1 if n < 8 else 2
+    for m in ms:
+        T = (m * n) // abs(p)                            # last whole time with |p| T <= m n
+        t_before = float(T - int(rng.integers(1, r + 1)))
+        t_after = float(T + int(rng.integers(1, r + 1)))
+        times = [t_before]
+        if abs(p) * T == m * n and rng.random() < 0.6:
+            times.append(float(T))                       # exactly a multiple of the extent
+        if rng.random() < 0.4:
+            times.append(T + 0.25 if abs(p) * T == m * n else T + 0.5)   # sub-pixel, just behind the crossing
+        times.append(t_after)
+        for t in times:
+            ops.append(['evolve', t])
+            ops.append(['read', 1.0])
+    ops += [['reset', False], ['evolve', ops[-2][1]], ['read', 1.0]]
+    case['ops'] = ops
+    case['extents'] = ms
+    return case
+
+
 def gen_noise_case(rng, big):
     nx, ny, dx, dy = gen_geometry(rng, big)
     cls = str(rng.choice(['fft', 'multiscale']))
     vel = gen_wind(rng, dx, dy)
     m = float(rng.integers(1, 3)) if rng.random() < 0.6 else float(rng.integers(1, 12)) / 4.0
+    if rng.random() < 0.35:
+        # more than 1, 2, 5 grid extents (the multiscale noise has the periods 1 and `oversampling` extents)
+        m = float(rng.choice([1, 2, 5])) * max(nx, ny) + float(rng.integers(-2, 3)) + (0.25 if rng.random() < 0.3 else 0.0)
     return {'kind': 'noise', 'cls': cls, 'nx': nx, 'ny': ny, 'dx': dx, 'dy': dy, 'q': int(rng.integers(1, 4)) if cls == 'fft' else int(rng.choice([2, 4])),
             'L0': 10.0, 'seed': int(rng.integers(0, 2 ** 31)), 'shift': [vel[0] * m, vel[1] * m]}
 
@@ -745,6 +816,21 @@ DIRECTED = [
                 [['evolve', 1024.0], ['read', 1.0]] + [x for i in range(1, 2049) for x in (
                     [['evolve', 1024.0 + i / 128.0], ['read', 1.0]] if i in (1, 2, 3, 512, 1024, 2047, 2048) else [['evolve', 1024.0 + i / 128.0, 'q']])],
                 interp=True), style='late-fine'),
+    # non-square pixels
+    _layer('infinite', 7, 9, [0.25, -0.5], [['read', 1.0], ['evolve', 1.0], ['read', 1.0], ['evolve', 3.0], ['read', 1.0], ['evolve', 3.5], ['read', 1.0]], dx=0.25, dy=0.5),
+    _layer('infinite', 9, 6, [0.0, 0.125], [['read', 1.0], ['evolve', 2.0], ['read', 1.0]], dx=0.5, dy=0.125, interp=True),
+    _layer('finite', 7, 9, [0.25, -0.5], [['read', 1.0], ['evolve', 1.0], ['read', 1.0], ['evolve', 2.5], ['read', 1.0]], dx=0.25, dy=0.5, k=2.0),
+    # periodicity: the displacement crosses 1, 2 and 5 grid extents between reads less than one extent apart
+    dict(_layer('finite', 8, 6, [0.25, 0.0], [['read', 1.0], ['evolve', 6.0], ['read', 1.0], ['evolve', 8.0], ['read', 1.0], ['evolve', 10.0], ['read', 1.0],
+                                              ['evolve', 15.0], ['read', 1.0], ['evolve', 16.0], ['read', 1.0], ['evolve', 16.25], ['read', 1.0], ['evolve', 18.0], ['read', 1.0],
+                                              ['evolve', 39.0], ['read', 1.0], ['evolve', 42.0], ['read', 1.0]]), style='crossing'),
+    dict(_layer('finite', 6, 8, [0.0, -0.5], [['evolve', 7.0], ['read', 1.0], ['evolve', 9.0], ['read', 1.0], ['evolve', 15.0], ['read', 1.0],
+                                              ['evolve', 17.0], ['read', 1.0]], dx=0.25, dy=0.5), style='crossing'),
+    dict(_layer('infinite', 8, 6, [-0.25, 0.0], [['read', 1.0], ['evolve', 7.0], ['read', 1.0], ['evolve', 9.0], ['read', 1.0], ['evolve', 15.0], ['read', 1.0],
+                                                 ['evolve', 17.0], ['read', 1.0]]), style='crossing'),
+    {'kind': 'noise', 'cls': 'multiscale', 'nx': 8, 'ny': 6, 'dx': 0.25, 'dy': 0.25, 'q': 2, 'L0': 10.0, 'seed': 3, 'shift': [2.25, 0.0]},
+    {'kind': 'noise', 'cls': 'multiscale', 'nx': 8, 'ny': 6, 'dx': 0.25, 'dy': 0.5, 'q': 2, 'L0': 10.0, 'seed': 3, 'shift': [4.0, -3.0]},
+    {'kind': 'noise', 'cls': 'fft', 'nx': 6, 'ny': 8, 'dx': 0.25, 'dy': 0.25, 'q': 2, 'L0': 10.0, 'seed': 3, 'shift': [0.0, 10.25]},
     {'kind': 'noise', 'cls': 'fft', 'nx': 8, 'ny': 8, 'dx': 0.25, 'dy': 0.25, 'q': 1, 'L0': 10.0, 'seed': 3, 'shift': [0.25, 0.0]},
     {'kind': 'noise', 'cls': 'fft', 'nx': 2, 'ny': 3, 'dx': 1.0, 'dy': 1.0, 'q': 1, 'L0': 10.0, 'seed': 3, 'shift': [1.0, 0.0]},
     {'kind': 'noise', 'cls': 'fft', 'nx': 6, 'ny': 9, 'dx': 0.25, 'dy': 0.5, 'q': 2, 'L0': 10.0, 'seed': 3, 'shift': [0.5, 0.5]},
@@ -760,6 +846,11 @@ def handle(ctx, case, batch):
         bad, obs, counts = judge_noise(case)
         sig = (case['cls'], case['nx'] == case['ny'], case['shift'][0] != 0, case['shift'][1] != 0, case['nx'], case['ny'])
         ctx.count('noise:%s %s' % (case['cls'], 'square' if case['nx'] == case['ny'] else 'non-square'))
+        ctx.count('noise:pixels %s' % ('square' if case['dx'] == case['dy'] else 'non-square (dx != dy)'))
+        e = max(abs(case['shift'][0]) / (case['nx'] * case['dx']), abs(case['shift'][1]) / (case['ny'] * case['dy']))
+        for lim in (1, 2, 5):
+            if e > lim:
+                ctx.count('noise:shift > %d extent(s)' % lim)
     else:
         bad, obs, counts = judge(case)
         orc = Oracle(case)
@@ -771,6 +862,27 @@ def handle(ctx, case, batch):
             ctx.count('%s:%s' % (case['kind'], case['style']))
             ctx.count('%s:late small steps' % case['kind'], sum(1 for op in case['ops'] if op[0] == 'evolve') - 1)
         ctx.count('%s:parameter setters' % case['kind'], sum(1 for op in case['ops'] if op[0] in SET_OPS))
+        ctx.count('%s:pixels %s' % (case['kind'], 'square' if case['dx'] == case['dy'] else 'non-square (dx != dy)'))
+        # accumulated displacement in grid extents, and consecutive reads that straddle a multiple of the extent
+        mx, last, strad, on = 0.0, None, 0, 0
+        vel = list(case['vel'])
+        for o in obs:
+            if o['op'][0] == 'reset':
+                last = None
+            if o['op'][0] == 'read' and o['status'] == 'ok':
+                e = (o['vel'][0] * o['t'] / (case['nx'] * case['dx']), o['vel'][1] * o['t'] / (case['ny'] * case['dy']))
+                mx = max(mx, abs(e[0]), abs(e[1]))
+                on += int(any(x != 0 and x == int(x) for x in e))
+                if last is not None:
+                    for a, b in zip(last, e):
+                        if abs(b - a) < 1 and int(np.floor(a)) != int(np.floor(b)):
+                            strad += 1
+                last = e
+        for lim in (1, 2, 5):
+            if mx > lim:
+                ctx.count('%s:accumulated displacement > %d extent(s)' % (case['kind'], lim))
+        ctx.count('%s:consecutive reads straddling a multiple of the extent' % case['kind'], strad)
+        ctx.count('%s:reads exactly on a multiple of the extent' % case['kind'], on)
         ctx.count('%s:resets' % case['kind'], nres)
         ctx.count('%s:independent resets' % case['kind'], sum(1 for op in case['ops'] if op[0] == 'reset' and op[1]))
         if case['kind'] == 'infinite':
@@ -811,13 +923,15 @@ def run(ctx):
     cases = [copy.deepcopy(c) for c in DIRECTED]
     big = ctx.tier == 'thorough'
     for i in range(n):
-        r = i % 5
-        if i % 10 == 9:
+        r = i % 10
+        if r == 4:
+            cases.append(gen_cross_case(ctx.rng, 'finite' if (i // 10) % 3 < 2 else 'infinite', big))
+        elif r == 9:
             j = (i // 10) % 3
             cases.append(gen_late_case(ctx.rng, 'finite' if j < 2 else 'infinite', 'huge' if j == 0 else 'fine', big))
-        elif r in (0, 1):
+        elif r in (0, 1, 5):
             cases.append(gen_layer_case(ctx.rng, 'finite', big and i % 3 == 0))
-        elif r in (2, 3):
+        elif r in (2, 3, 6):
             cases.append(gen_layer_case(ctx.rng, 'infinite', big and i % 3 == 0))
         else:
             cases.append(gen_noise_case(ctx.rng, big and i % 3 == 0))
